@@ -1,10 +1,925 @@
-//! C17 — (stub; filled in during the build phase)
+//! C17 — each input file is compiled exactly once: sources first, in the order given.
+//!
+//! E1 enumeration over REAL directory trees.  A worker process materialises a universe tree (one per subset of
+//! six optional entries, cached per process) in a private scratch directory, makes it the current directory and
+//! calls the real `slicec::compile_from_options` with EVERY argument list (sources × references) over the
+//! tree's path spellings.  The oracle is a reference resolver over the *model* of the tree (the harness knows
+//! the tree it built; file identity = canonical path computed on the model, never by `canonicalize`).
+//!
+//! The universe tree (depth 4):
+//! ```text
+//!   a.slice  b.slice  notes.txt
+//!   sub/c.slice
+//!   pkg/d.slice  pkg/readme.md  pkg/x.slice.bak  pkg/deep/slice  pkg/deep/er/e.slice
+//!   [0 empty-dir]      pkg/empty/
+//!   [1 file-link]      sub/la.slice -> ../a.slice          (links keep the `.slice` extension of their target)
+//!   [2 dir-link]       dl -> sub
+//!   [3 cycle]          sub/loop -> .
+//!   [4 dangling-link]  pkg/gone.slice -> nowhere.slice
+//!   [5 invalid-utf8]   pkg/deep/bad.slice                  (the "unreadable" entry: the harness runs as root,
+//!                                                           permission bits cannot make a file unreadable)
+//! ```
+//! `sub` is kept small on purpose: below the cycle the real walk visits it 41 times per way in, with paths of
+//! up to 40 links, which costs ~1 ms per expansion (measured) — everything else costs ~45 µs per scenario.
+//! Every `.slice` file is a tiny valid program with a module and a struct whose names are unique to the file,
+//! so any set of distinct files compiles together without a diagnostic — and a file compiled twice would not.
+//!
+//! What the oracle demands (each clause is a clause of the statement):
+//!  * no error entry ⇒ `state.files` (mapped back to identities through the model) is exactly: the source
+//!    identities in the given order (first occurrence), flagged `is_source`; then the reference identities not
+//!    already present, flagged `!is_source`, in the order of the reference arguments with the expansion of one
+//!    directory as an UNORDERED group (read_dir order is unspecified); every identity once; every file parsed;
+//!    no E001;
+//!  * one DuplicateFile diagnostic at level Warning per repeat inside one list (a repeat = a further way of
+//!    reaching an identity already reached in that list: listed again, spelled differently, through a link,
+//!    listed and also below a listed directory, below two listed directories, or twice below one directory via
+//!    links), none for a file that is in both lists.  The statement says "a file reachable more than once ...
+//!    repeats within one list are reported", and the files below a reference directory are members of the
+//!    reference list by the first sentence, so repeats that arise through directory expansion count like any
+//!    other (derived from the statement, not from the code);
+//!  * a nonexistent path, an existing file without the `.slice` extension, a directory given as a source, or a
+//!    reached file that cannot be read (invalid UTF-8) ⇒ at least one E001 at level Error and nothing parsed
+//!    (every returned file has no module and no contents).
+//!
+//! Softenings (the statement leaves these open, so they are not flagged):
+//!  (i)   symlink cycle: how often a file is "reachable" below `sub/loop -> .` is whatever the OS's ELOOP depth
+//!        makes it (measured: 40).  When the expansion of a reference directory runs into the cycle, the
+//!        DuplicateFile count is only bounded from below (the repeats that exist without going round the
+//!        cycle) and an E001 is tolerated (then nothing may be parsed); termination, compiled-once, the
+//!        compiled set, source priority and order are still checked.  Scenarios in a cyclic tree that do not
+//!        expand a directory into the cycle (e.g. the spelling `sub/loop/c.slice`) are checked exactly.
+//!  (ii)  links keep the `.slice` extension of their target, so "has the extension" does not depend on whether
+//!        the supplied or the canonical spelling is meant.
+//!  (iii) a dangling link named `*.slice` met while expanding a reference directory is "not a file" (ignored)
+//!        under one reading and a "nonexistent path" (E001) under another: both accepted (with E001: nothing
+//!        parsed).  Listed directly it is a nonexistent path ⇒ E001.
+//!  (iv)  repeats of *error entries* (the same missing path, non-slice file or source directory listed twice)
+//!        may or may not be reported as DuplicateFile: the count may exceed the expected one by at most the
+//!        number of such repeats.
+//!  (v)   on an error scenario only "E001 present, nothing parsed, DuplicateFile count" are checked — the
+//!        statement says nothing about which files are returned.
+//!
+//! Limit, stated: a cycle that points at an ancestor which also holds a second way into the cycle's directory
+//! (`sub/loop -> ..` plus `dl -> sub`) makes the number of distinct ELOOP-bounded paths grow like
+//! Fibonacci(40): the real walk then does not finish (measured on the pinned tree: `slicec a.slice -R .` was
+//! still running after 30 s; with the cycle alone it takes 15 ms).  The statement of C17 says nothing about
+//! termination, so the universe uses `sub/loop -> .`, below which the walk stays linear (41 visits of `sub`
+//! per way in); the observation is reported to the maintainers of C01 instead.
 
 use super::PropMeta;
 use crate::engine::*;
+use crate::util::*;
+use serde_json::{json, Value};
+use slicec::diagnostics::DiagnosticLevel;
+use slicec::slice_options::SliceOptions;
+use std::collections::{BTreeMap, BTreeSet, HashMap, VecDeque};
+use std::path::PathBuf;
+use std::sync::{Arc, Mutex, OnceLock};
+use std::time::Instant;
 
-pub fn meta(_m: &mut PropMeta) {}
+const FAM: &str = "c17/resolve";
+const OPT_NAMES: [&str; 6] = ["empty-dir", "file-link", "dir-link", "cycle", "dangling-link", "invalid-utf8"];
+const CYCLE_BIT: u32 = 1 << 3;
+/// A single compilation of a handful of 30-byte files normally takes < 5 ms (40-level walks included).
+const SLOW_SECS: f64 = 20.0;
 
-pub fn families(_tier: &str) -> Vec<Box<dyn Family>> {
-    vec![]
+// ------------------------------------------------------------------------------------------------------------
+// The model of a tree.
+
+#[derive(Clone, Copy, PartialEq, Eq, Debug)]
+enum Kind {
+    Slice,
+    Other,
+    BadUtf8,
+}
+
+#[derive(Clone, Debug)]
+enum Node {
+    Dir(BTreeMap<String, Node>),
+    File(Kind),
+    Link(String),
+}
+
+fn insert(root: &mut Node, path: &str, node: Node) {
+    let comps: Vec<&str> = path.split('/').collect();
+    let mut cur = root;
+    for (i, c) in comps.iter().enumerate() {
+        let Node::Dir(children) = cur else { panic!("model: {path} passes through a non-directory") };
+        if i + 1 == comps.len() {
+            children.insert(c.to_string(), node);
+            return;
+        }
+        cur = children.entry(c.to_string()).or_insert_with(|| Node::Dir(BTreeMap::new()));
+    }
+}
+
+fn model_tree(bits: u32) -> Node {
+    let mut root = Node::Dir(BTreeMap::new());
+    for p in ["a.slice", "b.slice", "sub/c.slice", "pkg/d.slice", "pkg/deep/er/e.slice"] {
+        insert(&mut root, p, Node::File(Kind::Slice));
+    }
+    for p in ["notes.txt", "pkg/readme.md", "pkg/x.slice.bak", "pkg/deep/slice"] {
+        insert(&mut root, p, Node::File(Kind::Other));
+    }
+    if bits & 1 != 0 {
+        insert(&mut root, "pkg/empty", Node::Dir(BTreeMap::new()));
+    }
+    if bits & 2 != 0 {
+        insert(&mut root, "sub/la.slice", Node::Link("../a.slice".into()));
+    }
+    if bits & 4 != 0 {
+        insert(&mut root, "dl", Node::Link("sub".into()));
+    }
+    if bits & 8 != 0 {
+        insert(&mut root, "sub/loop", Node::Link(".".into()));
+    }
+    if bits & 16 != 0 {
+        insert(&mut root, "pkg/gone.slice", Node::Link("nowhere.slice".into()));
+    }
+    if bits & 32 != 0 {
+        insert(&mut root, "pkg/deep/bad.slice", Node::File(Kind::BadUtf8));
+    }
+    root
+}
+
+/// Path spellings offered as arguments in a tree (`<root>` = absolute path of the tree).
+fn spellings(bits: u32) -> Vec<String> {
+    let mut v: Vec<&str> = vec![
+        "a.slice",         // plain
+        "./a.slice",       // through '.'
+        "sub/../a.slice",  // through '..'
+        "<root>/a.slice",  // absolute
+        "b.slice",         // a second top-level file
+        "sub/c.slice",     // nested file
+        "sub",             // directory (reference: expanded recursively; source: error)
+        "./sub/",          // the same directory spelled differently
+        ".",               // the whole tree
+        "missing.slice",   // nonexistent
+        "notes.txt",       // existing, not a Slice file
+    ];
+    if bits & 1 != 0 {
+        v.push("pkg/empty");
+    }
+    if bits & 2 != 0 {
+        v.push("sub/la.slice"); // a.slice through a file link
+    }
+    if bits & 4 != 0 {
+        v.push("dl/c.slice"); // sub/c.slice through a directory link
+        v.push("dl"); // sub through a directory link
+    }
+    if bits & 8 != 0 {
+        v.push("sub/loop/c.slice"); // sub/c.slice once round the cycle
+    }
+    if bits & 16 != 0 {
+        v.push("pkg/gone.slice"); // dangling link listed directly
+    }
+    if bits & 32 != 0 {
+        v.push("pkg/deep/bad.slice"); // unreadable (invalid UTF-8) listed directly
+    }
+    v.into_iter().map(String::from).collect()
+}
+
+fn opt_names(bits: u32) -> Vec<&'static str> {
+    (0..6).filter(|i| bits & (1 << i) != 0).map(|i| OPT_NAMES[i]).collect()
+}
+
+fn has_slice_ext(name: &str) -> bool {
+    // "*.slice": a non-empty stem followed by ".slice" (no entry of the universe is named ".slice")
+    name.len() > 6 && name.ends_with(".slice")
+}
+
+type Id = String; // canonical path relative to the tree root, components joined by '/'; "" = the root
+
+#[derive(Debug)]
+enum Res {
+    File(Id, Kind),
+    Dir(Vec<String>),
+    Missing,
+}
+
+fn node_at<'a>(root: &'a Node, canon: &[String]) -> &'a Node {
+    let mut cur = root;
+    for c in canon {
+        match cur {
+            Node::Dir(ch) => cur = &ch[c],
+            _ => panic!("model: canonical path passes through a non-directory"),
+        }
+    }
+    cur
+}
+
+/// POSIX path resolution on the model: components left to right, links replaced by their target relative to
+/// the directory that contains them, '..' taken on the resolved directory, at most 40 links.
+fn resolve_from(root: &Node, start: Vec<String>, path: &str) -> Res {
+    let mut cur = start;
+    let mut queue: VecDeque<String> = path.split('/').map(String::from).collect();
+    let mut links = 0;
+    while let Some(c) = queue.pop_front() {
+        if c.is_empty() || c == "." {
+            continue;
+        }
+        if c == ".." {
+            if cur.pop().is_none() {
+                return Res::Missing; // would leave the universe: not generated
+            }
+            continue;
+        }
+        let Node::Dir(children) = node_at(root, &cur) else { unreachable!() };
+        match children.get(&c) {
+            None => return Res::Missing,
+            Some(Node::Dir(_)) => cur.push(c),
+            Some(Node::File(k)) => {
+                if queue.iter().any(|r| !r.is_empty() && r != ".") {
+                    return Res::Missing; // ENOTDIR
+                }
+                cur.push(c);
+                return Res::File(cur.join("/"), *k);
+            }
+            Some(Node::Link(target)) => {
+                links += 1;
+                if links > 40 {
+                    return Res::Missing; // ELOOP
+                }
+                for t in target.split('/').rev() {
+                    queue.push_front(t.to_string());
+                }
+            }
+        }
+    }
+    Res::Dir(cur)
+}
+
+fn resolve(root: &Node, root_abs: &str, path: &str) -> Res {
+    if let Some(rest) = path.strip_prefix(root_abs) {
+        if rest.is_empty() || rest.starts_with('/') {
+            return resolve_from(root, vec![], rest);
+        }
+    }
+    if path.starts_with('/') {
+        return Res::Missing; // outside the universe: not generated
+    }
+    resolve_from(root, vec![], path)
+}
+
+#[derive(Default, Debug, Clone)]
+struct Expansion {
+    /// one entry per way of reaching a `*.slice` file without going round a cycle
+    events: Vec<(Id, Kind)>,
+    /// the walk met a link back to a directory it is inside of
+    into_cycle: bool,
+    /// the walk met a dangling link named `*.slice`
+    dangling: bool,
+}
+
+fn expand(root: &Node, dir: &[String], stack: &mut Vec<Vec<String>>, out: &mut Expansion) {
+    stack.push(dir.to_vec());
+    let Node::Dir(children) = node_at(root, dir) else { unreachable!() };
+    for (name, node) in children {
+        let r = match node {
+            Node::Dir(_) => {
+                let mut d = dir.to_vec();
+                d.push(name.clone());
+                Res::Dir(d)
+            }
+            Node::File(k) => {
+                let mut d = dir.to_vec();
+                d.push(name.clone());
+                Res::File(d.join("/"), *k)
+            }
+            Node::Link(_) => resolve_from(root, dir.to_vec(), name),
+        };
+        match r {
+            Res::Dir(c) => {
+                if stack.contains(&c) {
+                    out.into_cycle = true;
+                } else {
+                    expand(root, &c, stack, out);
+                }
+            }
+            Res::File(id, k) => {
+                if has_slice_ext(name) {
+                    out.events.push((id, k));
+                }
+            }
+            Res::Missing => {
+                if has_slice_ext(name) {
+                    out.dangling = true;
+                }
+            }
+        }
+    }
+    stack.pop();
+}
+
+/// What one argument denotes, by the model.
+#[derive(Debug, Clone)]
+enum Arg {
+    Missing,
+    NonSlice(Id),
+    File(Id, Kind),
+    Dir(Id, Expansion),
+}
+
+fn classify(root: &Node, root_abs: &str, spelling: &str) -> Arg {
+    match resolve(root, root_abs, spelling) {
+        Res::Missing => Arg::Missing,
+        Res::File(id, k) => {
+            let last = spelling.trim_end_matches('/').rsplit('/').next().unwrap_or("");
+            if has_slice_ext(last) {
+                Arg::File(id, k)
+            } else {
+                Arg::NonSlice(id)
+            }
+        }
+        Res::Dir(c) => {
+            let mut e = Expansion::default();
+            expand(root, &c, &mut vec![], &mut e);
+            Arg::Dir(c.join("/"), e)
+        }
+    }
+}
+
+// ------------------------------------------------------------------------------------------------------------
+// Real trees: one scratch directory per process, one sub-directory per tree, removed at process exit.
+
+struct Built {
+    bits: u32,
+    root_abs: String,
+    model: Node,
+    spellings: Vec<String>, // with <root> substituted
+    shown: Vec<String>,     // with <root> kept, for messages
+    args: Vec<Arg>,
+}
+
+fn scratch_base() -> PathBuf {
+    std::env::temp_dir().join(format!("mc-c17-{}", std::process::id()))
+}
+
+extern "C" fn remove_scratch() {
+    let _ = std::env::set_current_dir("/");
+    let _ = std::fs::remove_dir_all(scratch_base());
+}
+
+fn sweep_stale() {
+    // scratch directories of processes that were killed (hang watchdog) before their exit handler ran;
+    // liveness is read from /proc, so without /proc nothing is swept
+    if !PathBuf::from("/proc/self").exists() {
+        return;
+    }
+    if let Ok(rd) = std::fs::read_dir(std::env::temp_dir()) {
+        for e in rd.flatten() {
+            let name = e.file_name().to_string_lossy().to_string();
+            if let Some(pid) = name.strip_prefix("mc-c17-").and_then(|p| p.parse::<u32>().ok()) {
+                if pid != std::process::id() && !PathBuf::from(format!("/proc/{pid}")).exists() {
+                    let _ = std::fs::remove_dir_all(e.path());
+                }
+            }
+        }
+    }
+}
+
+fn file_text(id: &str) -> String {
+    let tag: String = id.chars().filter(|c| c.is_ascii_alphanumeric()).collect();
+    format!("module M{tag}\nstruct S{tag} {{ i: int32 }}\n")
+}
+
+fn materialise(dir: &PathBuf, canon: &mut Vec<String>, node: &Node) {
+    let Node::Dir(children) = node else { unreachable!() };
+    std::fs::create_dir_all(dir).expect("c17: create directory");
+    for (name, child) in children {
+        let p = dir.join(name);
+        canon.push(name.clone());
+        match child {
+            Node::Dir(_) => materialise(&p, canon, child),
+            Node::File(Kind::Slice) => std::fs::write(&p, file_text(&canon.join("/"))).expect("c17: write file"),
+            Node::File(Kind::Other) => std::fs::write(&p, "module NotSlice\n").expect("c17: write file"),
+            Node::File(Kind::BadUtf8) => std::fs::write(&p, b"module Bad\n\xff\xfe\n").expect("c17: write file"),
+            Node::Link(t) => std::os::unix::fs::symlink(t, &p).expect("c17: create symlink"),
+        }
+        canon.pop();
+    }
+}
+
+fn built(bits: u32) -> Arc<Built> {
+    static CACHE: OnceLock<Mutex<HashMap<u32, Arc<Built>>>> = OnceLock::new();
+    let cache = CACHE.get_or_init(|| {
+        sweep_stale();
+        unsafe {
+            libc::atexit(remove_scratch);
+        }
+        Mutex::new(HashMap::new())
+    });
+    let mut g = cache.lock().unwrap();
+    if let Some(b) = g.get(&bits) {
+        return b.clone();
+    }
+    let model = model_tree(bits);
+    let dir = scratch_base().join(format!("t{bits:02}"));
+    let _ = std::fs::remove_dir_all(&dir);
+    materialise(&dir, &mut vec![], &model);
+    let root_abs = dir.to_str().expect("c17: temp dir is UTF-8").trim_end_matches('/').to_string();
+    let shown = spellings(bits);
+    let sp: Vec<String> = shown.iter().map(|s| s.replace("<root>", &root_abs)).collect();
+    let args = sp.iter().map(|s| classify(&model, &root_abs, s)).collect();
+    let b = Arc::new(Built { bits, root_abs, model, spellings: sp, shown, args });
+    g.insert(bits, b.clone());
+    b
+}
+
+// ------------------------------------------------------------------------------------------------------------
+// The reference resolver: what the statement says for (sources, references).
+
+#[derive(Debug, Default)]
+struct Expect {
+    src_ids: Vec<Id>,
+    /// per reference argument: identities first reached by it (not a source, not in an earlier group)
+    ref_groups: Vec<BTreeSet<Id>>,
+    dups_lo: usize,
+    dups_hi: usize, // usize::MAX = unbounded (cycle)
+    io_required: bool,
+    io_tolerated: bool,
+    why_io: Vec<String>,
+    into_cycle: bool,
+    nontrivial: bool,
+}
+
+fn expect(b: &Built, sources: &[usize], references: &[usize]) -> Expect {
+    let mut e = Expect::default();
+    let mut error_repeats = 0usize;
+    let mut reached_bad = false;
+    let mut all_events = 0usize;
+
+    // sources
+    let mut errs: BTreeSet<String> = BTreeSet::new();
+    let mut nerr = 0usize;
+    let mut events = 0usize;
+    for &s in sources {
+        match &b.args[s] {
+            Arg::Missing => {
+                nerr += 1;
+                errs.insert(format!("?{}", b.shown[s]));
+                e.why_io.push(format!("source {:?} does not exist", b.shown[s]));
+            }
+            Arg::NonSlice(id) => {
+                nerr += 1;
+                errs.insert(id.clone());
+                e.why_io.push(format!("source {:?} has no .slice extension", b.shown[s]));
+            }
+            Arg::Dir(id, _) => {
+                nerr += 1;
+                errs.insert(format!("{id}/"));
+                e.why_io.push(format!("source {:?} is a directory", b.shown[s]));
+            }
+            Arg::File(id, k) => {
+                events += 1;
+                if !e.src_ids.contains(id) {
+                    e.src_ids.push(id.clone());
+                }
+                if *k == Kind::BadUtf8 {
+                    reached_bad = true;
+                }
+            }
+        }
+    }
+    e.dups_lo += events - e.src_ids.len();
+    error_repeats += nerr - errs.len();
+    e.io_required |= nerr > 0;
+    all_events += events;
+
+    // references
+    let mut errs: BTreeSet<String> = BTreeSet::new();
+    let mut nerr = 0usize;
+    let mut events = 0usize;
+    let mut ref_ids: BTreeSet<Id> = BTreeSet::new();
+    let mut placed: BTreeSet<Id> = e.src_ids.iter().cloned().collect();
+    for &r in references {
+        let mut group = BTreeSet::new();
+        let mut reach = |id: &Id, k: Kind, group: &mut BTreeSet<Id>| {
+            events += 1;
+            ref_ids.insert(id.clone());
+            if placed.insert(id.clone()) {
+                group.insert(id.clone());
+            }
+            if k == Kind::BadUtf8 {
+                reached_bad = true;
+            }
+        };
+        match &b.args[r] {
+            Arg::Missing => {
+                nerr += 1;
+                errs.insert(format!("?{}", b.shown[r]));
+                e.why_io.push(format!("reference {:?} does not exist", b.shown[r]));
+            }
+            Arg::NonSlice(id) => {
+                nerr += 1;
+                errs.insert(id.clone());
+                e.why_io.push(format!("reference {:?} has no .slice extension", b.shown[r]));
+            }
+            Arg::File(id, k) => reach(id, *k, &mut group),
+            Arg::Dir(_, x) => {
+                for (id, k) in &x.events {
+                    reach(id, *k, &mut group);
+                }
+                e.into_cycle |= x.into_cycle;
+                e.io_tolerated |= x.dangling | x.into_cycle;
+            }
+        }
+        e.ref_groups.push(group);
+    }
+    e.dups_lo += events - ref_ids.len();
+    error_repeats += nerr - errs.len();
+    e.io_required |= nerr > 0;
+    all_events += events;
+
+    if reached_bad {
+        e.io_required = true;
+        e.why_io.push("pkg/deep/bad.slice is reached and cannot be read (invalid UTF-8)".into());
+    }
+    e.dups_hi = if e.into_cycle { usize::MAX } else { e.dups_lo + error_repeats };
+    let distinct: BTreeSet<&Id> = e.src_ids.iter().chain(ref_ids.iter()).collect();
+    e.nontrivial = e.io_required || all_events > distinct.len();
+    e
+}
+
+// ------------------------------------------------------------------------------------------------------------
+// Observation of the real code.
+
+struct Obs {
+    files: Vec<(String, bool, bool)>, // relative_path, is_source, parsed (module set or contents non-empty)
+    dup_warnings: usize,
+    dup_other_level: usize,
+    e001: usize,
+    e001_not_error_level: usize,
+    other: Vec<String>,
+    secs: f64,
+}
+
+fn observe(sources: &[String], references: &[String]) -> Result<Obs, (String, String)> {
+    guarded(|| {
+        let options = SliceOptions { sources: sources.to_vec(), references: references.to_vec(), ..Default::default() };
+        let t0 = Instant::now();
+        let state = slicec::compile_from_options(&options);
+        let secs = t0.elapsed().as_secs_f64();
+        let files = state.files.iter().map(|f| (f.relative_path.clone(), f.is_source, f.module.is_some() || !f.contents.is_empty())).collect();
+        let mut o = Obs { files, dup_warnings: 0, dup_other_level: 0, e001: 0, e001_not_error_level: 0, other: vec![], secs };
+        for d in state.into_diagnostics(&options) {
+            match d.code() {
+                "DuplicateFile" => {
+                    if d.level() == DiagnosticLevel::Warning {
+                        o.dup_warnings += 1
+                    } else {
+                        o.dup_other_level += 1
+                    }
+                }
+                "E001" => {
+                    o.e001 += 1;
+                    if d.level() != DiagnosticLevel::Error {
+                        o.e001_not_error_level += 1;
+                    }
+                }
+                c => o.other.push(format!("{c}: {}", truncate(&d.message(), 80))),
+            }
+        }
+        o
+    })
+}
+
+/// Compare one scenario; returns the outcome class.
+fn scenario(b: &Built, e: &Expect, sources: &[usize], references: &[usize], out: &mut CaseOut) -> String {
+    let src: Vec<String> = sources.iter().map(|&i| b.spellings[i].clone()).collect();
+    let refs: Vec<String> = references.iter().map(|&i| b.spellings[i].clone()).collect();
+    let show_in = || {
+        format!(
+            "tree options {:?}; sources {:?}; references {:?}",
+            opt_names(b.bits),
+            sources.iter().map(|&i| &b.shown[i]).collect::<Vec<_>>(),
+            references.iter().map(|&i| &b.shown[i]).collect::<Vec<_>>()
+        )
+    };
+    let feat = if e.into_cycle { "/cycle" } else { "" };
+    let o = match observe(&src, &refs) {
+        Ok(o) => o,
+        Err((loc, msg)) => {
+            out.violate(format!("{FAM}/panic@{loc}"), format!("{}: compile_from_options panicked at {loc}: {msg}", show_in()));
+            return "panic".into();
+        }
+    };
+    let class = format!("files={},dup={},io={}", o.files.len(), o.dup_warnings.min(9), (o.e001 > 0) as u8);
+    let show_obs = || {
+        format!(
+            "observed files {:?}, {} DuplicateFile warning(s), {} E001, other diagnostics {:?}",
+            o.files.iter().map(|(p, s, _)| format!("{}{}", p.replace(&b.root_abs, "<root>"), if *s { " (source)" } else { " (reference)" })).collect::<Vec<_>>(),
+            o.dup_warnings,
+            o.e001,
+            o.other
+        )
+    };
+    if o.secs > SLOW_SECS {
+        out.violate(format!("{FAM}/termination{feat}"), format!("{}: one compilation took {:.1} s", show_in(), o.secs));
+    }
+    if o.dup_other_level > 0 {
+        out.violate(format!("{FAM}/duplicate-warning-level"), format!("{}: {} DuplicateFile diagnostic(s) not at level Warning", show_in(), o.dup_other_level));
+    }
+    if o.e001_not_error_level > 0 {
+        out.violate(format!("{FAM}/io-error-level"), format!("{}: {} E001 diagnostic(s) not at level Error", show_in(), o.e001_not_error_level));
+    }
+    // DuplicateFile count (checked in every scenario: de-duplication does not depend on the verdict)
+    if o.dup_warnings < e.dups_lo || o.dup_warnings > e.dups_hi {
+        let exp = if e.dups_hi == usize::MAX {
+            format!("at least {}", e.dups_lo)
+        } else if e.dups_hi == e.dups_lo {
+            format!("exactly {}", e.dups_lo)
+        } else {
+            format!("{}..={}", e.dups_lo, e.dups_hi)
+        };
+        let which = if o.dup_warnings < e.dups_lo { "missing" } else { "spurious" };
+        out.violate(
+            format!("{FAM}/duplicate-warnings/{which}{feat}"),
+            format!("{}: expected {exp} DuplicateFile warning(s) (one per repeat within one list, none across lists); {}", show_in(), show_obs()),
+        );
+    }
+    let nothing_parsed = o.files.iter().all(|(_, _, parsed)| !parsed);
+    if e.io_required || (e.io_tolerated && o.e001 > 0) {
+        // error scenario: E001 and nothing parsed
+        if o.e001 == 0 {
+            out.violate(format!("{FAM}/io-error-missing"), format!("{}: expected an I/O error (E001) because {}; {}", show_in(), e.why_io.join("; "), show_obs()));
+        }
+        if !nothing_parsed {
+            out.violate(
+                format!("{FAM}/parsed-despite-io-error"),
+                format!("{}: an I/O error is due ({}) yet files were parsed; {}", show_in(), e.why_io.join("; "), show_obs()),
+            );
+        }
+        return class;
+    }
+    // clean scenario
+    if o.e001 > 0 {
+        out.violate(format!("{FAM}/unexpected-io-error{feat}"), format!("{}: every argument exists, is a Slice file or a reference directory and is readable, but: {}", show_in(), show_obs()));
+        return class;
+    }
+    let exp_ref: Vec<&BTreeSet<Id>> = e.ref_groups.iter().collect();
+    let show_exp = || format!("expected sources {:?} then reference groups {:?}", e.src_ids, exp_ref);
+    // map observed files back to identities
+    let mut ids: Vec<(Id, bool)> = vec![];
+    for (p, is_src, _) in &o.files {
+        match resolve(&b.model, &b.root_abs, p) {
+            Res::File(id, _) => ids.push((id, *is_src)),
+            _ => {
+                out.violate(format!("{FAM}/compiled-set/unknown-path"), format!("{}: returned file {p:?} does not denote a file of the tree; {}", show_in(), show_obs()));
+                return class;
+            }
+        }
+    }
+    let mut seen = BTreeSet::new();
+    for (id, _) in &ids {
+        if !seen.insert(id.clone()) {
+            out.violate(format!("{FAM}/compiled-twice{feat}"), format!("{}: {id} is compiled more than once; {}; {}", show_in(), show_exp(), show_obs()));
+            return class;
+        }
+    }
+    let mut want: BTreeSet<Id> = e.src_ids.iter().cloned().collect();
+    for g in &e.ref_groups {
+        want.extend(g.iter().cloned());
+    }
+    if seen != want {
+        let missing: Vec<&Id> = want.difference(&seen).collect();
+        let extra: Vec<&Id> = seen.difference(&want).collect();
+        let which = if !missing.is_empty() { "missing" } else { "extra" };
+        out.violate(format!("{FAM}/compiled-set/{which}{feat}"), format!("{}: missing {missing:?}, extra {extra:?}; {}; {}", show_in(), show_exp(), show_obs()));
+        return class;
+    }
+    for (id, is_src) in &ids {
+        let listed = e.src_ids.contains(id);
+        if listed && !*is_src {
+            out.violate(format!("{FAM}/source-priority{feat}"), format!("{}: {id} is listed as a source but compiled as a reference; {}", show_in(), show_obs()));
+            return class;
+        }
+        if !listed && *is_src {
+            out.violate(format!("{FAM}/reference-flagged-source{feat}"), format!("{}: {id} is only a reference but compiled as a source; {}", show_in(), show_obs()));
+            return class;
+        }
+    }
+    let n = e.src_ids.len();
+    if ids[..n].iter().map(|(i, _)| i).ne(e.src_ids.iter()) {
+        out.violate(format!("{FAM}/source-order{feat}"), format!("{}: {}; {}", show_in(), show_exp(), show_obs()));
+        return class;
+    }
+    let group_of = |id: &Id| e.ref_groups.iter().position(|g| g.contains(id)).unwrap();
+    let gs: Vec<usize> = ids[n..].iter().map(|(i, _)| group_of(i)).collect();
+    if gs.windows(2).any(|w| w[0] > w[1]) {
+        out.violate(format!("{FAM}/reference-order{feat}"), format!("{}: {}; {}", show_in(), show_exp(), show_obs()));
+        return class;
+    }
+    if !o.files.iter().all(|(_, _, parsed)| *parsed) {
+        out.violate(format!("{FAM}/not-compiled"), format!("{}: no error, yet some returned file has neither module nor contents; {}", show_in(), show_obs()));
+    }
+    class
+}
+
+// ------------------------------------------------------------------------------------------------------------
+// The family: (tree, sources list, first reference) chunks.
+
+/// Number of lists with a length in lo..=hi over n symbols.
+fn count_lists(n: u64, lo: usize, hi: usize) -> u64 {
+    (lo..=hi).map(|k| n.pow(k as u32)).sum()
+}
+
+/// The idx-th list with a length in lo..=hi over n symbols (shorter lists first).
+fn nth_list(n: u64, lo: usize, hi: usize, mut idx: u64) -> Vec<usize> {
+    for k in lo..=hi {
+        let c = n.pow(k as u32);
+        if idx < c {
+            let mut v = Vec::with_capacity(k);
+            for _ in 0..k {
+                v.push((idx % n) as usize);
+                idx /= n;
+            }
+            v.reverse();
+            return v;
+        }
+        idx -= c;
+    }
+    panic!("list index out of range")
+}
+
+pub struct Lists {
+    label: String,
+    trees: Vec<u32>,
+    src_len: (usize, usize),
+    ref_len: (usize, usize),
+    /// prefix sums of the number of cases per tree
+    starts: Vec<u64>,
+}
+
+impl Lists {
+    fn new(label: &str, trees: Vec<u32>, src_len: (usize, usize), ref_len: (usize, usize)) -> Lists {
+        let mut l = Lists { label: label.to_string(), trees, src_len, ref_len, starts: vec![] };
+        let mut acc = 0;
+        let mut starts = vec![];
+        for &t in &l.trees {
+            starts.push(acc);
+            acc += l.cases_of(t);
+        }
+        starts.push(acc);
+        l.starts = starts;
+        l
+    }
+    /// indices (into the tree's spelling list) of the usable spellings: all of them
+    fn alpha(&self, bits: u32) -> Vec<usize> {
+        (0..spellings(bits).len()).collect()
+    }
+    fn chunks(&self, n: u64) -> u64 {
+        // chunk 0 = the empty reference list (if allowed); chunk c = lists starting with symbol c-1
+        (if self.ref_len.0 == 0 { 1 } else { 0 }) + if self.ref_len.1 >= 1 { n } else { 0 }
+    }
+    fn cases_of(&self, bits: u32) -> u64 {
+        let n = self.alpha(bits).len() as u64;
+        count_lists(n, self.src_len.0, self.src_len.1) * self.chunks(n)
+    }
+    /// (tree, alphabet, sources (alphabet positions), first reference (alphabet position) or None)
+    fn locate(&self, idx: u64) -> (u32, Vec<usize>, Vec<usize>, Option<usize>) {
+        let t = self.starts.partition_point(|&s| s <= idx) - 1;
+        let bits = self.trees[t];
+        let alpha = self.alpha(bits);
+        let n = alpha.len() as u64;
+        let local = idx - self.starts[t];
+        let ch = self.chunks(n);
+        let src = nth_list(n, self.src_len.0, self.src_len.1, local / ch);
+        let mut c = local % ch;
+        let first = if self.ref_len.0 == 0 {
+            if c == 0 {
+                None
+            } else {
+                c -= 1;
+                Some(c as usize)
+            }
+        } else {
+            Some(c as usize)
+        };
+        (bits, alpha, src, first)
+    }
+    /// lengths of the rest of the reference list after the first element
+    fn rest_len(&self) -> (usize, usize) {
+        (self.ref_len.0.max(1) - 1, self.ref_len.1 - 1)
+    }
+}
+
+impl Family for Lists {
+    fn name(&self) -> String {
+        self.label.clone()
+    }
+    fn len(&self) -> u64 {
+        *self.starts.last().unwrap()
+    }
+    fn hang_secs(&self) -> f64 {
+        60.0
+    }
+    fn crash_sig(&self, _idx: u64, how: &str) -> String {
+        if how.starts_with("hang") {
+            format!("{FAM}/termination/worker-hang")
+        } else {
+            format!("{FAM}/{how}")
+        }
+    }
+    fn describe(&self, idx: u64) -> Value {
+        let (bits, alpha, src, first) = self.locate(idx);
+        let sp = spellings(bits);
+        let (lo, hi) = self.rest_len();
+        json!({
+            "tree_options": opt_names(bits),
+            "tree": "a.slice b.slice notes.txt sub/c.slice pkg/{d.slice,readme.md,x.slice.bak,deep/{slice,er/e.slice}} + options: empty-dir=pkg/empty/, file-link=sub/la.slice->../a.slice, dir-link=dl->sub, cycle=sub/loop->., dangling-link=pkg/gone.slice->nowhere.slice, invalid-utf8=pkg/deep/bad.slice",
+            "cwd": "<root> (the tree)",
+            "sources": src.iter().map(|&i| sp[alpha[i]].clone()).collect::<Vec<_>>(),
+            "references": match first {
+                None => json!([]),
+                Some(f) => json!(format!("[{:?}] followed by every list of {lo}..={hi} further spellings out of {:?}", sp[alpha[f]], alpha.iter().map(|&i| sp[i].clone()).collect::<Vec<_>>())),
+            },
+            "call": "slicec::compile_from_options(&SliceOptions{sources, references, ..Default::default()})",
+        })
+    }
+    fn run(&self, idx: u64) -> CaseOut {
+        let (bits, alpha, src_pos, first) = self.locate(idx);
+        let b = built(bits);
+        let src: Vec<usize> = src_pos.iter().map(|&i| alpha[i]).collect();
+        let mut out = CaseOut::new(hash_str(&format!("c17|{bits}|{:?}|{:?}|{:?}", src.iter().map(|&i| &b.shown[i]).collect::<Vec<_>>(), first.map(|f| &b.shown[alpha[f]]), self.ref_len)));
+        out.steps = 0;
+        let prev = std::env::current_dir().ok();
+        std::env::set_current_dir(&b.root_abs).expect("c17: enter the tree");
+        let mut classes: BTreeMap<String, u64> = BTreeMap::new();
+        let mut nontrivial_scenarios = 0u64;
+        let mut head_class: Option<String> = None;
+        let mut one = |refs: &[usize], out: &mut CaseOut| {
+            out.steps += 1;
+            out.validated += 1;
+            let e = expect(&b, &src, refs);
+            if e.nontrivial {
+                nontrivial_scenarios += 1;
+            }
+            let c = scenario(&b, &e, &src, refs, out);
+            if head_class.is_none() {
+                head_class = Some(c.clone());
+            }
+            *classes.entry(c).or_insert(0) += 1;
+        };
+        match first {
+            None => one(&[], &mut out),
+            Some(f) => {
+                let (lo, hi) = self.rest_len();
+                let n = alpha.len() as u64;
+                for k in 0..count_lists(n, lo, hi) {
+                    let mut refs = vec![alpha[f]];
+                    refs.extend(nth_list(n, lo, hi, k).into_iter().map(|i| alpha[i]));
+                    one(&refs, &mut out);
+                }
+            }
+        }
+        if let Some(p) = prev {
+            let _ = std::env::set_current_dir(p);
+        }
+        // non-trivial case = the part shared by all its scenarios (sources + first reference) already aliases a
+        // file twice or contains an error entry
+        let shared: Vec<usize> = first.map(|f| vec![alpha[f]]).unwrap_or_default();
+        out.nontrivial = expect(&b, &src, &shared).nontrivial;
+        out.class = head_class.unwrap_or_default();
+        out.extra.push(("scenarios".into(), out.steps));
+        out.extra.push(("scenarios_nontrivial".into(), nontrivial_scenarios));
+        for (c, n) in classes {
+            out.extra.push((format!("scenario_class[{c}]"), n));
+        }
+        let mut seen = std::collections::HashSet::new();
+        out.violations.retain(|v| seen.insert(v.sig.clone()));
+        out
+    }
+}
+
+pub fn meta(m: &mut PropMeta) {
+    m.rule = "REAL directory trees in a private scratch directory, the harness' cwd inside the tree, the real slicec::compile_from_options in-process. Universe (depth 4): a.slice b.slice notes.txt sub/c.slice pkg/{d.slice,readme.md,x.slice.bak,deep/{slice,er/e.slice}} plus every subset of 6 optional entries (2^6 trees): empty directory pkg/empty/, file link sub/la.slice->../a.slice, directory link dl->sub, cycle sub/loop->., dangling link pkg/gone.slice, invalid-UTF-8 file pkg/deep/bad.slice (the 'unreadable' entry; the harness runs as root so permission bits are useless). Argument lists are EVERY (sources, references) pair of lists over the tree's 11-18 path spellings: a.slice ./a.slice sub/../a.slice <abs>/a.slice b.slice sub/c.slice, directories sub ./sub/ . (reference: expanded; source: error), missing.slice, notes.txt, and per option pkg/empty, sub/la.slice, dl/c.slice, dl, sub/loop/c.slice, pkg/gone.slice, pkg/deep/bad.slice. Oracle = reference resolver over the MODEL of the tree (identity = canonical path computed on the model): state.files mapped back to identities must be the source identities in the given order flagged is_source, then the not-yet-present reference identities in argument order with each directory expansion an unordered group, every identity once, every file parsed, no E001; exactly one DuplicateFile at level Warning per repeat within one list (also repeats arising through directory expansion and links) and none across lists; nonexistent / non-.slice / directory-as-source / unreadable reached file => at least one E001 at level Error and nothing parsed (no module, no contents in any returned file). Softenings: when a reference directory expansion runs into the cycle the DuplicateFile count is only bounded from below and an E001 is tolerated (ELOOP depth is the OS's business); a dangling *.slice link below a reference directory may be ignored or reported; repeats of error entries may or may not be warned about; on error scenarios the returned file list is not compared. A case = (tree, sources list, first reference) and runs every reference list with that first element; the real scenario count is extra_counters.scenarios (= steps = validated), per-scenario outcome classes (files returned, DuplicateFile warnings, E001 present) are extra_counters.scenario_class[..]. Non-trivial scenario = the argument lists reach at least one file twice or contain an error entry; non-trivial case = that already holds for the part shared by all its scenarios (sources + first reference); extra_counters.scenarios_nontrivial counts scenarios.";
+    m.explanation = "exhaustive enumeration of argument lists over real directory trees (files, links, cycle, dangling link, unreadable file) against a reference resolver on the model tree";
+    m.quick_bound = "32 trees without the cycle x all lists of <=2 sources + <=2 references (1.5M compilations); 32 trees with the cycle x <=2 sources + <=1 reference; tree {cycle} x <=2 + <=2 (a directory expansion into the cycle costs ~1 ms, everything else ~45 us)";
+    m.thorough_bound = "all 64 trees x <=2 sources + <=2 references; 7 trees without the cycle (no option, each single option, all five) additionally x (3 sources + <=2 references) and (<=2 sources + 3 references); tree {cycle} x 3 sources + <=2 references; the tree with all five non-cycle options x 3 sources + 3 references (so <=3 + <=3 is complete on that tree only: the full product 64 trees x <=3 + <=3 would be ~5e8 compilations); 34M compilations in total";
+}
+
+pub fn families(tier: &str) -> Vec<Box<dyn Family>> {
+    let pick = |f: &dyn Fn(u32) -> bool| -> Vec<u32> {
+        (0..64).filter(|b| f(*b)).collect()
+    };
+    let acyclic = pick(&|b| b & CYCLE_BIT == 0);
+    let cyclic = pick(&|b| b & CYCLE_BIT != 0);
+    if tier == "quick" {
+        vec![
+            Box::new(Lists::new("32 trees without the cycle x sources<=2 x references<=2", acyclic, (0, 2), (0, 2))),
+            Box::new(Lists::new("32 trees with the cycle x sources<=2 x references<=1", cyclic, (0, 2), (0, 1))),
+            Box::new(Lists::new("tree {cycle} x sources<=2 x references<=2", pick(&|b| b == 8), (0, 2), (0, 2))),
+        ]
+    } else {
+        let representative = pick(&|b| [0, 1, 2, 4, 16, 32, 55].contains(&b));
+        vec![
+            Box::new(Lists::new("32 trees without the cycle x sources<=2 x references<=2", acyclic, (0, 2), (0, 2))),
+            Box::new(Lists::new("32 trees with the cycle x sources<=2 x references<=2", cyclic, (0, 2), (0, 2))),
+            Box::new(Lists::new("7 trees without the cycle (none, each single option, all five) x sources=3 x references<=2", representative.clone(), (3, 3), (0, 2))),
+            Box::new(Lists::new("7 trees without the cycle (none, each single option, all five) x sources<=2 x references=3", representative, (0, 2), (3, 3))),
+            Box::new(Lists::new("tree {cycle} x sources=3 x references<=2", pick(&|b| b == 8), (3, 3), (0, 2))),
+            Box::new(Lists::new("tree with all five options but the cycle x sources=3 x references=3", pick(&|b| b == 55), (3, 3), (3, 3))),
+        ]
+    }
 }
